@@ -179,6 +179,12 @@ Theorem C03_packet_nomore_stable : forall skip s, dinv2 s -> fst (next_packet sk
 Proof. intros skip s Hs E. split; [exact (next_packet_nomore skip s Hs E)|exact (next_packet_nomore_stable skip s Hs E)]. Qed.
 Print Assumptions C03_packet_nomore_stable.
 
+(* a truncated final packet (fewer bytes left than the packet size) is end of stream, not an error, and is consumed *)
+Theorem C03_truncated_tail : forall skip s pb, dinv2 s -> d_pb s = Some pb -> rem (d_reader s) < pb_size pb ->
+  fst (next_packet skip s) = Err E_nomore /\ rem (d_reader (snd (next_packet skip s))) = 0.
+Proof. exact truncated_tail. Qed.
+Print Assumptions C03_truncated_tail.
+
 (* hypotheses satisfiable, statements not vacuous: the one-packet stream above followed by a truncated packet (100 bytes):
    NextData parses the unit, reaches the truncated tail and returns ErrNoMorePackets; potential 576 at the start;
    the never-panicking, never-producing PacketsParser is bounded *)
